@@ -184,13 +184,34 @@ Proof.
   - contradiction.
 Qed.
 
-Lemma pub_mat_wf m : wf_pubmat m -> pub_mat m = m.
-Proof. destruct m; cbn [wf_pubmat pub_mat]; intros H; [reflexivity..|contradiction]. Qed.
+Lemma pub_mat_old_wf m : wf_pubmat m -> pub_mat_old m = m.
+Proof. destruct m; cbn [wf_pubmat pub_mat_old]; intros H; [reflexivity..|contradiction]. Qed.
 
-Lemma wf_pub_pubkey k : wf_pub k -> wf_pub (pubkey_pkt k).
+Lemma wf_not_opaque m : wf_pubmat m -> is_opaque m = false.
+Proof. destruct m; cbn [wf_pubmat is_opaque]; intros H; [reflexivity..|contradiction]. Qed.
+
+(* pubkey() never refuses a key of a supported algorithm ... *)
+Lemma pubkey_pkt_wf k : wf_pub k -> pubkey_pkt k = Some (pub_half k).
 Proof.
-  intros [A [B C]]. unfold wf_pub, pubkey_pkt. cbn [k_created k_alg k_mat]. rewrite (pub_mat_wf _ C). auto.
+  intros [_ [_ Hm]]. unfold pubkey_pkt, opaque_private. rewrite (wf_not_opaque _ Hm), andb_false_r. reflexivity.
 Qed.
+(* ... and on those the repair 3c1c8c6 changed nothing *)
+Lemma pubkey_pkt_old_same k : wf_pub k -> pubkey_pkt k = Some (pubkey_pkt_old k).
+Proof.
+  intros H. rewrite pubkey_pkt_wf by exact H. destruct H as [_ [_ Hm]].
+  unfold pubkey_pkt_old, pub_half. rewrite (pub_mat_old_wf _ Hm). reflexivity.
+Qed.
+(* it refuses exactly the private packets with opaque material *)
+Lemma pubkey_pkt_none_iff k : pubkey_pkt k = None <-> is_private k = true /\ is_opaque (k_mat k) = true.
+Proof.
+  unfold pubkey_pkt, opaque_private. destruct (is_private k), (is_opaque (k_mat k)); cbn; split; intros H;
+    try discriminate; try reflexivity; try (destruct H; discriminate); auto.
+Qed.
+Lemma pubkey_pkt_some k p : pubkey_pkt k = Some p -> p = pub_half k.
+Proof. unfold pubkey_pkt. destruct (opaque_private k); intros H; [discriminate|]. inversion H. reflexivity. Qed.
+
+Lemma wf_pub_half k : wf_pub k -> wf_pub (pub_half k).
+Proof. intros H. exact H. Qed.
 
 Lemma pubmat_len_nonneg m : wf_pubmat m -> 0 <= pubmat_len m.
 Proof. intros H. rewrite <- publen_correct by assumption. lia. Qed.
@@ -219,31 +240,38 @@ Lemma key_body_split k : key_body k =
   ([4] ++ int_to_bytes (k_created k) 4 ++ int_to_bytes (k_alg k) 1) ++ keymaterial_bytes k.
 Proof. unfold key_body. rewrite <- !app_assoc. reflexivity. Qed.
 
-Theorem pub_body_eq_rfc k : wf_pub k -> pub_packet_body k = rfc_pub_body (k_created k) (k_alg k) (k_mat k).
+Lemma key_body_half k :
+  key_body (pub_half k) = ([4] ++ int_to_bytes (k_created k) 4 ++ int_to_bytes (k_alg k) 1) ++ pubmat_bytes (k_mat k).
 Proof.
-  intros H. unfold pub_packet_body. rewrite key_body_split.
-  replace (k_created (pubkey_pkt k)) with (k_created k) by reflexivity.
-  replace (k_alg (pubkey_pkt k)) with (k_alg k) by reflexivity.
-  rewrite key_head by assumption. unfold keymaterial_bytes, pubkey_pkt. cbn [k_mat k_sec].
-  rewrite app_nil_r. destruct H as [_ [_ Hm]]. rewrite (pub_mat_wf _ Hm). rewrite material_eq_rfc by assumption.
+  rewrite key_body_split. unfold keymaterial_bytes, pub_half. cbn [k_mat k_sec k_created k_alg].
+  rewrite app_nil_r. reflexivity.
+Qed.
+
+Lemma half_body_eq_rfc k : wf_pub k -> key_body (pub_half k) = rfc_pub_body (k_created k) (k_alg k) (k_mat k).
+Proof.
+  intros H. rewrite key_body_half. rewrite key_head by assumption.
+  destruct H as [_ [_ Hm]]. rewrite material_eq_rfc by assumption.
   unfold rfc_pub_body. rewrite <- !app_assoc. reflexivity.
+Qed.
+
+Theorem pub_body_eq_rfc k : wf_pub k -> pub_packet_body k = Some (rfc_pub_body (k_created k) (k_alg k) (k_mat k)).
+Proof.
+  intros H. unfold pub_packet_body. rewrite pubkey_pkt_wf by exact H. rewrite half_body_eq_rfc by exact H. reflexivity.
 Qed.
 
 Lemma length_key_head k : wf_pub k ->
   length ([4] ++ int_to_bytes (k_created k) 4 ++ int_to_bytes (k_alg k) 1) = 6%nat.
 Proof. intros H. rewrite key_head by assumption. rewrite !app_length, length_be. reflexivity. Qed.
 
-Lemma length_pub_body k : wf_pub k -> Z.of_nat (length (pub_packet_body k)) = 6 + publen k.
+Lemma length_half_body k : wf_pub k -> Z.of_nat (length (key_body (pub_half k))) = 6 + publen k.
 Proof.
-  intros H. unfold pub_packet_body. rewrite key_body_split, app_length.
-  rewrite (length_key_head (pubkey_pkt k)) by (apply wf_pub_pubkey; exact H).
-  unfold keymaterial_bytes, pubkey_pkt, publen. cbn [k_mat k_sec]. rewrite app_nil_r.
-  destruct H as [_ [_ Hm]]. rewrite (pub_mat_wf _ Hm). rewrite Nat2Z.inj_add, publen_correct by assumption. lia.
+  intros H. rewrite key_body_half, app_length. rewrite length_key_head by exact H.
+  destruct H as [_ [_ Hm]]. unfold publen. rewrite Nat2Z.inj_add, publen_correct by assumption. lia.
 Qed.
 
 (* ---------- the public packet body is exactly the first 6 + publen octets of the secret packet body ---------- *)
-Theorem pub_body_is_prefix k : wf_pub k ->
-  pub_packet_body k = firstn (Z.to_nat (6 + publen k)) (sec_packet_body k).
+Lemma half_body_is_prefix k : wf_pub k ->
+  key_body (pub_half k) = firstn (Z.to_nat (6 + publen k)) (sec_packet_body k).
 Proof.
   intros H. unfold sec_packet_body. rewrite (key_body_split k). unfold keymaterial_bytes at 1.
   rewrite app_assoc.
@@ -251,9 +279,14 @@ Proof.
                = Z.to_nat (6 + publen k)).
   { rewrite app_length, length_key_head by assumption. destruct H as [_ [_ Hm]].
     pose proof (publen_correct _ Hm). unfold publen. lia. }
-  rewrite firstn_app_exact by exact Hl.
-  unfold pub_packet_body. rewrite key_body_split. unfold keymaterial_bytes, pubkey_pkt. cbn [k_mat k_sec k_created k_alg].
-  rewrite app_nil_r. destruct H as [_ [_ Hm]]. rewrite (pub_mat_wf _ Hm). reflexivity.
+  rewrite firstn_app_exact by exact Hl. apply key_body_half.
+Qed.
+
+(* the twin exists (no refusal for a supported algorithm) and its body is that prefix *)
+Theorem pub_body_is_prefix k : wf_pub k ->
+  pub_packet_body k = Some (firstn (Z.to_nat (6 + publen k)) (sec_packet_body k)).
+Proof.
+  intros H. unfold pub_packet_body. rewrite pubkey_pkt_wf by exact H. rewrite half_body_is_prefix by exact H. reflexivity.
 Qed.
 
 (* the first publen octets of the (public or secret) material are the public material *)
@@ -262,3 +295,11 @@ Proof.
   intros [_ [_ Hm]]. unfold keymaterial_bytes, publen. apply firstn_app_exact.
   pose proof (publen_correct _ Hm). lia.
 Qed.
+
+(* the nominal public length is the real one for supported AND for opaque material *)
+Lemma real_publen_wf k : wf_pubmat (k_mat k) -> real_publen k.
+Proof. intros H. unfold real_publen, publen. apply publen_correct. exact H. Qed.
+Lemma real_publen_opaque k : is_opaque (k_mat k) = true -> real_publen k.
+Proof. unfold real_publen, publen. destruct (k_mat k); cbn [is_opaque]; intros H; try discriminate. reflexivity. Qed.
+Lemma material_prefix_real k : real_publen k -> firstn (Z.to_nat (publen k)) (keymaterial_bytes k) = pubmat_bytes (k_mat k).
+Proof. intros H. unfold keymaterial_bytes. apply firstn_app_exact. unfold real_publen in H. lia. Qed.
